@@ -180,6 +180,29 @@ theorem inconsistent_layer_values_rejected {F} (ops : FieldOps F) (v : Verifier 
   rw [hbad _ qv hc.folded h1] at h2
   cases h2
 
+/-- EVERY QUERY IS CHECKED SEPARATELY: in an accepted iteration, for EVERY index `i` of the position
+list — duplicates and positions that fold into the same row (`p ≡ p' mod domain/N`) included,
+whatever their order — the evaluation carried for `positions[i]` equals the element of the opened
+rows at row `position(folded, positions[i] % rowLen)`, column `positions[i] / rowLen`.  (No
+"first query per leaf" shortcut: the comparison is `evaluations == get_query_values(..)` on whole
+vectors.) -/
+theorem every_query_checked {F} (ops : FieldOps F) (v : Verifier F) (depth : Nat) (st st' : LoopState F)
+    (o : LayerOpening F) (h : verifyLayer ops v depth st o = .ok st') :
+    ∀ i (h1 : i < st.positions.length), ∃ (h2 : i < st.evaluations.length) (idx : Nat) (row : List F) (val : F),
+      st'.positions.findIdx? (· == st.positions[i] % (st.domainSize / v.options.folding)) = some idx ∧
+      o.rows[idx]? = some row ∧
+      row[st.positions[i] / (st.domainSize / v.options.folding)]? = some val ∧
+      ops.beq st.evaluations[i] val = true := by
+  have hc := verifyLayer_ok ops v depth st st' o h
+  obtain ⟨qv, hq, hb⟩ := hc.queryValues
+  obtain ⟨hlen, hrows⟩ := getQueryValues_some _ _ _ _ _ qv hq
+  obtain ⟨hl2, hpt⟩ := listBeq_pointwise ops _ _ hb
+  intro i h1
+  have hi2 : i < qv.length := by omega
+  have hi3 : i < st.evaluations.length := by omega
+  obtain ⟨idx, row, ha, hb', hc'⟩ := hrows i h1 hi2
+  exact ⟨hi3, idx, row, qv[i], ha, hb', hc', hpt i hi3 hi2⟩
+
 /-- FEWER (OR MORE) LAYERS THAN COMMITTED (fix 14a37ea): a proof whose number of layers is not the
 number of commitments minus one is rejected by `DefaultVerifierChannel::new` with an error, before
 anything is taken out of the channel — never a panic. -/
@@ -233,6 +256,17 @@ theorem adaptive_remainder_passes_algebraic_checks (v : Verifier K) (st : LoopSt
   unfold verifyRemainder
   simp only [Bool.not_true, Bool.false_eq_true, if_false]
   rw [if_neg (by omega), if_pos hck']
+
+/-- ANY ALTERED SUPPLIED EVALUATION IS REJECTED: the transcript (positions, opened layers,
+remainder) pins down the whole vector of query evaluations, so if one vector is accepted every
+other vector — differing in one entry or many, at the first, the last, a duplicated or a
+coset-colliding position, listed before or after its partner — is not.  No distinctness hypothesis
+on the positions; holds with zero layers (remainder check) as well. -/
+theorem altered_evaluation_rejected (v : Verifier K) (ev ev' : List K) (positions : List Nat)
+    (openings : List (LayerOpening K)) (remainder : List K) (remOk remOk' : Bool)
+    (h : verify (fieldOps K) v ev positions openings remainder remOk = .ok ()) (hne : ev' ≠ ev) :
+    verify (fieldOps K) v ev' positions openings remainder remOk' ≠ .ok () :=
+  fun h' => hne (accepted_evaluations_unique v ev ev' positions openings remainder remOk remOk' h h').symm
 
 /-- the substitution itself: `r' = r + t·Π_{p}(x − x_p)` (as reversed coefficient lists of equal
 length: any `z` whose polynomial vanishes at the queried points) agrees with `r` at those points -/
@@ -320,6 +354,26 @@ example :
     run17new id = some (.ok ()) ∧
     run17new (fun _ => []) = some (.err (.proofLayerCountMismatch 1 0)) ∧
     run17new (fun l => l ++ l) = some (.err (.proofLayerCountMismatch 1 2)) := by
+  decide +kernel
+
+/-- positions that share a folding coset (`5 ≡ 1 mod 8/2`), in both orders, and a duplicated
+position: honest evaluations are accepted; a wrong evaluation for the later-listed partner, for
+the earlier-listed partner, or for the second copy of a duplicate is `InvalidLayerFolding(0)` -/
+def run17ev (ps : List Nat) (tweak : List Nat → List Nat) : Option (Res Unit) :=
+  let o : FriOptions := { blowup := 2, folding := 2, rmd := 1 }
+  (buildLayers ops17 o 2 3 [5, 7] evals8).bind fun lr =>
+    (buildProofLayers 2 lr.1 ps 8).map fun opened =>
+      newAndVerify ops17 o 3 1 (fun _ => 2) 3 [5, 7] (tweak (ps.map (evals8.getD · 0))) ps
+        (opened.map fun rows => { rows := rows, merkleOk := true }) lr.2 true
+
+example :
+    foldPositions [5, 1] 8 2 = some [1] ∧
+    run17ev [5, 1] id = some (.ok ()) ∧ run17ev [1, 5] id = some (.ok ()) ∧
+    run17ev [6, 6] id = some (.ok ()) ∧
+    run17ev [5, 1] (fun e => [e.getD 0 0, (e.getD 1 0 + 1) % 17]) = some (.err (.invalidLayerFolding 0)) ∧
+    run17ev [5, 1] (fun e => [(e.getD 0 0 + 1) % 17, e.getD 1 0]) = some (.err (.invalidLayerFolding 0)) ∧
+    run17ev [1, 5] (fun e => [e.getD 0 0, (e.getD 1 0 + 1) % 17]) = some (.err (.invalidLayerFolding 0)) ∧
+    run17ev [6, 6] (fun e => [e.getD 0 0, (e.getD 1 0 + 1) % 17]) = some (.err (.invalidLayerFolding 0)) := by
   decide +kernel
 
 end Wf.Props.C09
